@@ -59,8 +59,9 @@ def r25_1(ctx, rep):
     ok = False
     if fn is not None:
         kws = [k for c in calls(fn) if is_name(c.func, "E") for k in c.keywords if k.arg in ("name", "builtin")]
-        ok = len(kws) == 2 and all(is_name(k.value, "op_name") for k in kws) and \
-            any(isinstance(s, ast.Assign) and is_name(s.targets[0], "op_name") and norm(s.value) == "tree.operator" for s in ast.walk(fn))
+        tparam = fn.args.args[1].arg
+        ops = {s.targets[0].id for s in ast.walk(fn) if isinstance(s, ast.Assign) and isinstance(s.targets[0], ast.Name) and norm(s.value) == "%s.operator" % tparam}
+        ok = len(kws) == 2 and all(isinstance(k.value, ast.Name) and k.value.id in ops for k in kws) and len(ops) == 1
     rep.ob(R, "%s:%s.exitExpression" % (XML, CLS), "operator name", ok, "the element's operator name must be the expression's operator")
     if n < 6:
         raise MechanismMissing(R, "fewer than 6 child comprehensions found in XmlGenerator")
